@@ -86,6 +86,11 @@ def run(prop, tier, seed, workdir, replaydir, build, log):
                 totals[k] = totals.get(k, 0) + v
         if len(res["samples"]) < 2:
             res["samples"].append("race run seed=%d: %s" % (s["seed"], json.dumps({k: s[k] for k in ("node_updates", "node_deletes", "informer_replacements", "deep_reads", "metric_scrapes", "set_desired_calls", "stop_latency_ms", "loop_error")})))
+        if s.get("unmodelled"):
+            note = "race workload: %s; runs with such calls are not judged" % s["unmodelled"]
+            if note not in res["inconclusive"]:
+                res["inconclusive"].append(note)
+            continue
         if prop == "C20":
             bad = None
             if s.get("panic"):
